@@ -1,27 +1,20 @@
-"""C13 — at most one live connection per client id; takeover keeps the session intact."""
-import os, sys
+"""C13 (STATE part) — client id -> active connection is a partial function consistent with the
+sessions; a resumed Setup hands the stored session over (MemoryBackend).  The protocol /
+liveness part of C13 (order of Closed and CONNACK, concurrent contenders, nothing blocked) is
+not covered by this check yet."""
+import os
+import sys
 sys.path.insert(0, os.path.dirname(os.path.abspath(__file__)))
-import _sys
+import mb_common  # noqa: E402
 
 ASSUMPTIONS = [
-    "sync.Mutex (global and setup mutex of MemoryBackend) makes each backend method an atomic step",
-    "whole-broker scenarios sample schedules; the theorems cover all interleavings of the modelled steps",
-    "real-time behaviour of the 5 s kill timeout is an event in the model and not exercised by the quick tier",
+    "Setup is modelled as OSetup (old connection closed, setup mutex held) / OSetupEnd (old connection Closed, or kill timeout)",
+    "a connection reaches Closed only after its Terminate (broker/client.go cleanup order); a *Client calls Setup once",
+    "the uniqueness invariant is stated for histories without kill timeout (Terminate removes the active entry by client id): "
+    "C13_unique_state_kill_timeout_refuted shows the state reached otherwise; only its partial-function part is proved, the rest is "
+    "evaluated on every observed state of the implementation",
 ]
 
 
 def run(ck):
-    ck.coq()
-    ex = _sys.run_sys(ck, "c13")
-    if ex is None:
-        return
-    if ck.tier == "thorough":
-        ck.coqchk(["GM.Props.C13"])
-    ck.evaluations = ck.stats.get("direct_clauses_evaluated", 0)
-    ck.distinct = ck.stats.get("scenarios", 0)
-    ck.samples = [l for l in ex if l.startswith("direct ")][:6]
-    ck.rule = ("whole broker (Engine + MemoryBackend over TCP loopback): rounds of 2..8 simultaneous CONNECTs with the id of a live "
-               "persistent session (old connection idle / mid-handshake / under traffic / dying), clean and unclean mixed; clauses "
-               "exactly_one, will_once, not_stalled, lifecycle, shutdown, session handover (session-present, every queued/in-flight message "
-               "exactly once, retransmissions flagged dup); the open known finding (old connection blocked in a carrier write) is replayed; "
-               "distinct_nontrivial = scenarios run (each a different seed-derived schedule)")
+    mb_common.run_mb(ck, {"unique", "handover"})
